@@ -307,6 +307,17 @@ class CSSStyleSheet(cssutils.stylesheets.StyleSheet):
                 )
                 rule = cssutils.css.MarginRule(parentStyleSheet=self)
                 rule.cssText = self._tokensupto2(tokenizer, token)
+            elif self._normalize(token[1]) == '@charset':
+                # no CHARSET_SYM (other case, no S behind it): no charset
+                # rule, and not to be written as one by an unknown rule
+                self._log.error(
+                    'CSSStylesheet: Invalid @charset rule: the exact form is'
+                    ' \'@charset "encoding";\'.',
+                    token,
+                    neverraise=True,
+                )
+                self._tokensupto2(tokenizer, token)
+                return max(1, expected or 0)
             else:
                 self._log.warn(
                     'CSSStylesheet: Unknown @rule found.', token, neverraise=True
